@@ -1228,7 +1228,17 @@ def c_once_clone(m, st, f, a): return copy_val(deref(a[0]))
 @contract(r'^<.* as Fn(Mut|Once)?<.*>>::call(_mut|_once)?$')
 def c_fn_call(m, st, f, a):
     tup = a[1]
-    m.invoke(st, a[0], list(tup.f), m.cur_ret)
+    tgt = a[0]
+    # a non-capturing closure bound to a local is a zero-sized value that MIR never assigns ('_2' stays uninitialised and
+    # only '&_2' is passed): materialise it from the callee type
+    mm = re.match(r'^<(\{closure@[^}]*\}) as Fn', f)
+    if mm:
+        t = tgt
+        while isinstance(t, Ref): t = deref(t)
+        if t is None:
+            cv = ClosureV(mm.group(1), []); cv.subst = st.frames[-1].subst
+            tgt = cv
+    m.invoke(st, tgt, list(tup.f), m.cur_ret)
     return PUSHED
 
 
@@ -1439,6 +1449,26 @@ def c_atomic_rmw(m, st, f, a):
     op = f.rsplit('::', 1)[1]
     c.f[0] = a[1] if op == 'swap' else binop({'fetch_add': 'Add', 'fetch_or': 'BitOr', 'fetch_and': 'BitAnd'}[op], old, a[1])
     return old
+
+
+@contract(r'^(Atomic|std::sync::atomic::Atomic(Bool|Usize|U32|U64)?)(::<.*>)?::(get_mut|into_inner|as_ptr)$', 3)
+def c_atomic_get_mut(m, st, f, a):
+    # &mut self / self: exclusive access, no schedule point
+    if f.endswith('get_mut'): return Ref(a[0].cell, a[0].path + (0,))
+    if f.endswith('into_inner'): return a[0].f[0]
+    raise Inconclusive('Atomic::as_ptr is not modelled')
+
+
+@contract(r'^(Atomic|std::sync::atomic::Atomic(Bool|Usize|U32|U64)?)(::<.*>)?::(compare_exchange|compare_exchange_weak)$', 3)
+def c_atomic_cas(m, st, f, a):
+    _sched(m, st, 'rmw', a[0])
+    c = sv(a[0]); old = c.f[0]
+    if isinstance(old, IntV): same = binop('Eq', old, a[1])
+    elif isinstance(old, bool) and isinstance(a[1], bool): same = old == a[1]
+    else: same = (old if not isinstance(old, bool) else z3.BoolVal(old)) == (a[1] if not isinstance(a[1], bool) else z3.BoolVal(a[1]))
+    if bool_val(m, st, same):
+        c.f[0] = a[2]; return ok(old)
+    return err(old)
 
 
 # ---------------------------------------------------------------------------------------------- tuples / enums: Ord, PartialEq, Clone, Hash
